@@ -42,6 +42,8 @@ PICK = [
     ('C03', lambda r, d, c: r in ('C03.b', 'C03.j'), 'C17.c'),
     ('C13', lambda r, d, c: r == 'C13.i', 'C17.f'),
     ('C03', lambda r, d, c: r == 'C03.e' and 'leaf pages cover' in (c or ''), 'C17.c'),
+    ('C03', lambda r, d, c: r == 'C03.a' and 'small-scope' in (c or ''), 'C17.c'),
+    ('C03', lambda r, d, c: r == 'C03.c' and d.startswith('[C13.a]'), 'C17.c'),
     ('C01', lambda r, d, c: r == 'C01.n', 'C17.e'),
     ('C13', lambda r, d, c: r == 'C13.a' and ('small-scope' in (c or '') or 'coverage' in (c or '') or 'sentinel' in (c or '')), 'C17.f'),
     ('C12', lambda r, d, c: r == 'C12.a' and ('NaN' in d or 'allow_nan' in d or 'every geometry column' in d or 'key' in (c or '')), 'C17.f'),
